@@ -1,1 +1,349 @@
-pub fn main(_args: &[String]) -> i32 { eprintln!("server: not built yet"); 2 }
+//! `server` mode: the real `Server::run` on a loopback port over a real store, driven by scripted
+//! clients.
+//!
+//! stdin:
+//!   CASE <name> maxconn=<n> [mfs=<n>] [syncms=..]
+//!   conn <id>                         open a client connection (TCP_NODELAY)
+//!   tryconn <id> <timeout_ms>         open a connection and report whether the server SERVES it within
+//!                                     the timeout (sends GET of a probe key and waits for the reply)
+//!   send <id> <hex> [pause_ms]        one write call with these bytes, then pause
+//!   sendbytes <id> <hex> <pause_us>   one write call per byte
+//!   recv <id> <n|eof> <timeout_ms>    read n bytes, or until end of stream; prints what was read
+//!   half <id>                         shut down the write side (the server sees EOF)
+//!   close <id>                        drop the connection
+//!   shutdown                          fire the shutdown signal
+//!   waitrun <timeout_ms>              wait for Server::run to return
+//!   storeget <key>                    read the store directly
+//!   storeset <key> <value>            write the store directly
+//!   merge                             run a merge pass (verif hook)
+//!   alive                             is the server task still running?
+//!   sleep <ms>
+//!   END
+use std::{
+    collections::HashMap,
+    io::{BufRead, Write},
+    path::PathBuf,
+    time::Duration,
+};
+
+use bitcask::storage::{bitcask::Handle, KeyValueStorage};
+use bytes::Bytes;
+use tokio::{
+    io::{AsyncReadExt, AsyncWriteExt},
+    net::TcpStream,
+    sync::oneshot,
+    task::JoinHandle,
+    time::timeout,
+};
+
+use crate::{
+    store::{make_config, parse_case, CaseCfg},
+    util::{hex, quiet_panics, unhex},
+};
+
+fn free_port() -> u16 {
+    let l = std::net::TcpListener::bind("127.0.0.1:0").unwrap();
+    l.local_addr().unwrap().port()
+}
+
+struct Running {
+    port: u16,
+    handle: Handle,
+    _kv: bitcask::storage::bitcask::Bitcask,
+    shutdown_tx: Option<oneshot::Sender<()>>,
+    run: Option<JoinHandle<()>>,
+    done: std::sync::Arc<std::sync::atomic::AtomicBool>,
+}
+
+async fn start(c: &CaseCfg, maxconn: usize, dir: &PathBuf) -> Result<Running, String> {
+    let kv = make_config(c, dir).open().map_err(|e| e.to_string())?;
+    let handle = kv.get_handle();
+    for _ in 0..20 {
+        let port = free_port();
+        let mut conf = bitcask::net::Config::default();
+        conf.host = "127.0.0.1".parse().unwrap();
+        conf.port = port;
+        conf.max_connections = maxconn;
+        conf.min_backoff_ms = 1;
+        conf.max_backoff_ms = 8;
+        let (tx, rx) = oneshot::channel::<()>();
+        match bitcask::net::Server::new(handle.clone(), async { let _ = rx.await; }, conf).await {
+            Ok(server) => {
+                let done = std::sync::Arc::new(std::sync::atomic::AtomicBool::new(false));
+                let d2 = done.clone();
+                let run = tokio::spawn(async move {
+                    server.run().await;
+                    d2.store(true, std::sync::atomic::Ordering::SeqCst);
+                });
+                return Ok(Running { port, handle, _kv: kv, shutdown_tx: Some(tx), run: Some(run), done });
+            }
+            Err(_) => continue,
+        }
+    }
+    Err("could not bind".into())
+}
+
+async fn read_n(s: &mut TcpStream, n: Option<usize>, ms: u64) -> (Vec<u8>, &'static str) {
+    let mut out = Vec::new();
+    let mut buf = vec![0u8; 65536];
+    let deadline = tokio::time::Instant::now() + Duration::from_millis(ms);
+    loop {
+        if let Some(n) = n {
+            if out.len() >= n {
+                return (out, "ok");
+            }
+        }
+        let want = match n {
+            Some(n) => std::cmp::min(buf.len(), n - out.len()),
+            None => buf.len(),
+        };
+        match tokio::time::timeout_at(deadline, s.read(&mut buf[..want])).await {
+            Err(_) => return (out, "timeout"),
+            Ok(Ok(0)) => return (out, "eof"),
+            Ok(Ok(k)) => out.extend_from_slice(&buf[..k]),
+            Ok(Err(_)) => return (out, "reset"),
+        }
+    }
+}
+
+async fn run_case(c: &CaseCfg, maxconn: usize, ops: &[String], out: &mut dyn Write, scratch: &PathBuf) {
+    let dir = scratch.join(&c.name);
+    let _ = std::fs::remove_dir_all(&dir);
+    std::fs::create_dir_all(&dir).unwrap();
+    bitcask::verif::set_clock(1);
+    let mut srv = match start(c, maxconn, &dir).await {
+        Ok(s) => {
+            writeln!(out, "start ok").unwrap();
+            s
+        }
+        Err(e) => {
+            writeln!(out, "start err:{}", e).unwrap();
+            for _ in ops {
+                writeln!(out, "abandoned").unwrap();
+            }
+            writeln!(out, "end").unwrap();
+            return;
+        }
+    };
+    let mut conns: HashMap<String, TcpStream> = HashMap::new();
+    for line in ops {
+        let mut it = line.split_whitespace();
+        let cmd = it.next().unwrap_or("");
+        let res: String = match cmd {
+            "conn" => {
+                let id = it.next().unwrap().to_string();
+                match timeout(Duration::from_millis(2000), TcpStream::connect(("127.0.0.1", srv.port))).await {
+                    Ok(Ok(s)) => {
+                        let _ = s.set_nodelay(true);
+                        conns.insert(id, s);
+                        "ok".into()
+                    }
+                    Ok(Err(e)) => format!("err:{}", e.kind()),
+                    Err(_) => "timeout".into(),
+                }
+            }
+            "tryconn" => {
+                let id = it.next().unwrap().to_string();
+                let ms: u64 = it.next().unwrap().parse().unwrap();
+                match timeout(Duration::from_millis(2000), TcpStream::connect(("127.0.0.1", srv.port))).await {
+                    Ok(Ok(mut s)) => {
+                        let _ = s.set_nodelay(true);
+                        let _ = s.write_all(b"*2\r\n$3\r\nGET\r\n$9\r\n__probe__\r\n").await;
+                        let (got, st) = read_n(&mut s, Some(5), ms).await;
+                        conns.insert(id, s);
+                        if st == "ok" && got == b"$-1\r\n" {
+                            "served".into()
+                        } else {
+                            format!("notserved:{}", st)
+                        }
+                    }
+                    Ok(Err(e)) => format!("err:{}", e.kind()),
+                    Err(_) => "timeout".into(),
+                }
+            }
+            "send" => {
+                let id = it.next().unwrap();
+                let data = unhex(it.next().unwrap_or("-"));
+                let pause: u64 = it.next().map(|x| x.parse().unwrap()).unwrap_or(0);
+                match conns.get_mut(id) {
+                    Some(s) => {
+                        let r = s.write_all(&data).await;
+                        if pause > 0 {
+                            tokio::time::sleep(Duration::from_millis(pause)).await;
+                        }
+                        match r {
+                            Ok(()) => "ok".into(),
+                            Err(e) => format!("err:{}", e.kind()),
+                        }
+                    }
+                    None => "noconn".into(),
+                }
+            }
+            "sendbytes" => {
+                let id = it.next().unwrap();
+                let data = unhex(it.next().unwrap_or("-"));
+                let pause: u64 = it.next().map(|x| x.parse().unwrap()).unwrap_or(200);
+                match conns.get_mut(id) {
+                    Some(s) => {
+                        let mut r = Ok(());
+                        for b in data {
+                            r = s.write_all(&[b]).await;
+                            if r.is_err() {
+                                break;
+                            }
+                            tokio::time::sleep(Duration::from_micros(pause)).await;
+                        }
+                        match r {
+                            Ok(()) => "ok".into(),
+                            Err(e) => format!("err:{}", e.kind()),
+                        }
+                    }
+                    None => "noconn".into(),
+                }
+            }
+            "recv" => {
+                let id = it.next().unwrap();
+                let n = it.next().unwrap();
+                let ms: u64 = it.next().unwrap().parse().unwrap();
+                let n = if n == "eof" { None } else { Some(n.parse::<usize>().unwrap()) };
+                match conns.get_mut(id) {
+                    Some(s) => {
+                        let (got, st) = read_n(s, n, ms).await;
+                        format!("{}:{}:{}", st, got.len(), hex(&got))
+                    }
+                    None => "noconn".into(),
+                }
+            }
+            "half" => match conns.get_mut(it.next().unwrap()) {
+                Some(s) => {
+                    let _ = s.shutdown().await;
+                    "ok".into()
+                }
+                None => "noconn".into(),
+            },
+            "close" => {
+                conns.remove(it.next().unwrap());
+                "ok".into()
+            }
+            "shutdown" => {
+                if let Some(tx) = srv.shutdown_tx.take() {
+                    let _ = tx.send(());
+                }
+                "ok".into()
+            }
+            "waitrun" => {
+                let ms: u64 = it.next().unwrap().parse().unwrap();
+                match srv.run.as_mut() {
+                    Some(h) => {
+                        let t0 = std::time::Instant::now();
+                        match timeout(Duration::from_millis(ms), h).await {
+                            Ok(Ok(())) => {
+                                srv.run = None;
+                                format!("returned:{}", if t0.elapsed().as_millis() < 1000 { "fast" } else { "slow" })
+                            }
+                            Ok(Err(_)) => {
+                                srv.run = None;
+                                "panicked".into()
+                            }
+                            Err(_) => "timeout".into(),
+                        }
+                    }
+                    None => "returned:already".into(),
+                }
+            }
+            "alive" => {
+                if srv.done.load(std::sync::atomic::Ordering::SeqCst) {
+                    "finished".into()
+                } else {
+                    "running".into()
+                }
+            }
+            "storeget" => {
+                let k = Bytes::from(unhex(it.next().unwrap()));
+                let h = srv.handle.clone();
+                match tokio::task::spawn_blocking(move || h.get(k)).await {
+                    Ok(Ok(Some(v))) => format!("some:{}", hex(&v)),
+                    Ok(Ok(None)) => "none".into(),
+                    Ok(Err(e)) => format!("err:{}", e),
+                    Err(_) => "panic".into(),
+                }
+            }
+            "storeset" => {
+                let k = Bytes::from(unhex(it.next().unwrap()));
+                let v = Bytes::from(unhex(it.next().unwrap_or("-")));
+                let h = srv.handle.clone();
+                match tokio::task::spawn_blocking(move || h.set(k, v)).await {
+                    Ok(Ok(())) => "ok".into(),
+                    Ok(Err(e)) => format!("err:{}", e),
+                    Err(_) => "panic".into(),
+                }
+            }
+            "merge" => {
+                let h = srv.handle.clone();
+                match tokio::task::spawn_blocking(move || h.verif_merge()).await {
+                    Ok(Ok(())) => "ok".into(),
+                    Ok(Err(e)) => format!("err:{}", e),
+                    Err(_) => "panic".into(),
+                }
+            }
+            "sleep" => {
+                tokio::time::sleep(Duration::from_millis(it.next().unwrap().parse().unwrap())).await;
+                "ok".into()
+            }
+            _ => "badop".into(),
+        };
+        writeln!(out, "{}", res).unwrap();
+    }
+    conns.clear();
+    if let Some(tx) = srv.shutdown_tx.take() {
+        let _ = tx.send(());
+    }
+    if let Some(h) = srv.run.take() {
+        let _ = timeout(Duration::from_millis(3000), h).await;
+    }
+    drop(srv);
+    writeln!(out, "end").unwrap();
+    out.flush().unwrap();
+    let _ = std::fs::remove_dir_all(&dir);
+}
+
+pub fn main(_args: &[String]) -> i32 {
+    quiet_panics();
+    let scratch = PathBuf::from(format!("/dev/shm/bcv-srv-{}", std::process::id()));
+    std::fs::create_dir_all(&scratch).unwrap();
+    let rt = tokio::runtime::Builder::new_multi_thread().worker_threads(4).enable_all().build().unwrap();
+    let stdin = std::io::stdin();
+    let stdout = std::io::stdout();
+    let mut out = std::io::BufWriter::new(stdout.lock());
+    let mut cur: Option<(CaseCfg, usize)> = None;
+    let mut ops: Vec<String> = Vec::new();
+    for line in stdin.lock().lines() {
+        let line = line.unwrap();
+        if line.starts_with("CASE") {
+            // maxconn is ours, the rest is the store configuration
+            let mut maxconn = 128usize;
+            let filtered: Vec<&str> = line
+                .split_whitespace()
+                .filter(|kv| {
+                    if let Some(v) = kv.strip_prefix("maxconn=") {
+                        maxconn = v.parse().unwrap();
+                        false
+                    } else {
+                        true
+                    }
+                })
+                .collect();
+            cur = Some((parse_case(&filtered.join(" ")), maxconn));
+            ops.clear();
+        } else if line.trim() == "END" {
+            if let Some((c, maxconn)) = cur.take() {
+                writeln!(out, "case {}", c.name).unwrap();
+                rt.block_on(run_case(&c, maxconn, &ops, &mut out, &scratch));
+            }
+        } else if !line.trim().is_empty() {
+            ops.push(line);
+        }
+    }
+    let _ = std::fs::remove_dir_all(&scratch);
+    0
+}
